@@ -113,13 +113,16 @@ def addable (I : Inst) (plan : Plan) : List (Nat × Nat × Nat × Nat) :=
   (I.nonRunning.filter (fun t => plan.get t == none)).flatMap (fun t =>
     ((I.keys t).filter (fun q => validB I (plan.set t (some q)))).map (fun q => (t, q.1, q.2.1, q.2.2)))
 
+/-- Reward (scaled by `den`) task `t` earns under a plan. -/
+def rewOf (I : Inst) (plan : Plan) (t : Nat) : Int :=
+  if I.cplex && I.running t then 2 * (I.den : Int) else
+  match plan.get t with
+  | some c => I.rew c.2.1
+  | none => 0
+
 /-- Reward (scaled by `den`) of a plan: what the objective of `gen I` evaluates to. -/
 def planReward (I : Inst) (plan : Plan) : Int :=
-  isum ((I.act.filter I.rewarded).map (fun t =>
-    if I.cplex && I.running t then 2 * (I.den : Int) else
-    match plan.get t with
-    | some c => I.rew c.2.1
-    | none => 0))
+  isum ((I.act.filter I.rewarded).map (rewOf I plan))
 
 /-- Largest reward (scaled) any single cell of the task can earn. -/
 def maxRew (I : Inst) (t : Nat) : Int :=
